@@ -243,7 +243,7 @@ def concretise(ctx, o, r):
     n = max(0, min(n, 8))
     sc, rf, pr = m.get("score"), m.get("ref"), m.get("pred")
     if n and not (isinstance(sc, list) and isinstance(rf, list) and isinstance(pr, list)):
-        return None
+        n = 0
     pairs = [[str(model_real(sc[i])), model_int(rf[i]), model_int(pr[i])] for i in range(n)]
     return {"metric": o.info["metric"], "many": o.info["many"] == "True" or o.info["many"] is True,
             "thr": str(model_real(m.get("thr", "0"))), "pairs": pairs}
